@@ -115,7 +115,7 @@ fn main() {
                 "prepared-reactions" => replay_text(&checks::prepared::Reactions, &text),
                 "par-experiment" => {
                     let _quiet = par::StdoutSilencer::new();
-                    replay_text(&checks::experiment::Experiment { prop: if file.property == "C15" { "C15" } else { "C08" } }, &text)
+                    replay_text(&checks::experiment::Experiment { prop: match file.property.as_str() { "C15" => "C15", "C05" => "C05", "C06" => "C06", _ => "C08" } }, &text)
                 }
                 w if w.starts_with("templates-") => {
                     let prop: &'static str = match file.property.as_str() {
